@@ -705,6 +705,139 @@ theorem exp_pauliword_general (k : Consts S) (L : k.Laws) (hp : HalfPi k) (w : P
 
 end general
 
+
+/-! ## time evolution under a diagonal (hence commuting) operator is exact, for every number of steps
+
+The operators whose terms are identity words and Z-type words commute with one another, and `exp(−i t H)` is the
+diagonal operator whose entry at the basis state `x` is the product of the term phases.  The emission loop of
+`get_exponentiated_qubit_operator_circuit` (`emit`, uncontrolled) produces exactly that operator together with the
+returned phase, and the repetition `circuit * n_trotter_steps` its `n`-th power - provided the float decision
+`abs(coef) > 1e-10` keeps every non-identity term (`keep` is a parameter of the model; a term it rejects is dropped,
+which is where the result would stop being exact). -/
+section diagonal
+
+/-- the loop body of `emit` -/
+def emitStep (d : CoefDecide) (variational : Bool) (control : Option (List Nat)) (acc : ExpOut) (wc : PWord × Ang) : Option ExpOut :=
+  let (w, c) := wc
+  match w with
+  | [] =>
+    match control with
+    | none => some { acc with phaseAngle := acc.phaseAngle + c }
+    | some [q] => some { acc with gates := acc.gates ++ [⟨"PHASE", [q], none, .ang (-c), variational⟩] }
+    | some (q :: cs) => some { acc with gates := acc.gates ++ [⟨"CPHASE", [q], some cs, .ang (-c), variational⟩] }
+    | some [] => none
+  | _ =>
+    if d.keep c then
+      (gates w c (d.nonneg c) variational control).map (fun g => { acc with gates := acc.gates ++ g })
+    else some acc
+
+theorem emit_eq_foldlM (d : CoefDecide) (timed : Terms) (variational : Bool) (control : Option (List Nat)) :
+    emit d timed variational control = timed.foldlM (emitStep d variational control) { gates := [], phaseAngle := 0 } := rfl
+
+/-- the diagonal entry contributed by one term: 1 for the identity word (its phase is returned separately),
+    `exp(∓ i c)` according to the parity of the word's qubits for a Z-type word -/
+def termPhase (k : Consts R) (wc : PWord × Ang) (x : Bits) : R :=
+  match wc.1 with
+  | [] => 1
+  | _ => if parity (sortNat (wc.1.map (·.1))) x then k.e (wc.2 + wc.2) else k.e (-(wc.2 + wc.2))
+
+def phaseProd (k : Consts R) (timed : Terms) (x : Bits) : R := timed.foldr (fun wc acc => termPhase k wc x * acc) 1
+
+/-- the separately returned phase angle: the sum of the identity-word coefficients -/
+def identityAngle (timed : Terms) (a : Ang) : Ang := timed.foldl (fun a wc => if wc.1 = [] then a + wc.2 else a) a
+
+/-- admissible term: identity word, or Z-type word on distinct qubits that the float decision keeps -/
+def DiagTerm (d : CoefDecide) (wc : PWord × Ang) : Prop :=
+  wc.1 = [] ∨ (allZ wc.1 = true ∧ (sortNat (wc.1.map (·.1))).Nodup ∧ d.keep wc.2 = true)
+
+theorem sortNat_ne_nil' : ∀ (l : List Nat), l ≠ [] → sortNat l ≠ []
+  | [], h => absurd rfl h
+  | q :: l, _ => by
+    have : ∀ (q : Nat) (m : List Nat), insertSorted q m ≠ [] := by
+      intro q m; cases m with
+      | nil => simp [insertSorted]
+      | cons a m => simp only [insertSorted]; split <;> simp
+    simpa [sortNat] using this q _
+
+theorem emit_diag_from (k : Consts R) (L : k.Laws) (d : CoefDecide) (var : Bool) :
+    ∀ (timed : Terms) (acc : ExpOut) (aops : List Op), (∀ wc ∈ timed, DiagTerm d wc) → gatesToOps acc.gates = some aops →
+      ∃ out ops, timed.foldlM (emitStep d var none) acc = some out ∧ gatesToOps out.gates = some (aops ++ ops) ∧
+        out.phaseAngle = identityAngle timed acc.phaseAngle ∧
+        ∀ (ψ : State R) (x : Bits), semOps k ops ψ x = phaseProd k timed x * ψ x
+  | [], acc, aops, _, ha => ⟨acc, [], rfl, by simpa using ha, rfl, fun ψ x => by simp [semOps, phaseProd]⟩
+  | (w, c) :: rest, acc, aops, hall, ha => by
+    have hrest : ∀ wc ∈ rest, DiagTerm d wc := fun wc h => hall wc (List.mem_cons_of_mem _ h)
+    cases w with
+    | nil =>
+      obtain ⟨out, ops, h1, h2, h3, h4⟩ := emit_diag_from k L d var rest { acc with phaseAngle := acc.phaseAngle + c } aops hrest ha
+      refine ⟨out, ops, ?_, h2, ?_, ?_⟩
+      · rw [List.foldlM_cons]; exact h1
+      · rw [h3]; simp [identityAngle]
+      · intro ψ x; rw [h4]; simp [phaseProd, termPhase]
+    | cons f fs =>
+      have hd := hall (f :: fs, c) (by simp)
+      rcases hd with hd | ⟨hz, hnd, hk⟩
+      · cases hd
+      · have hne : sortNat ((f :: fs).map (·.1)) ≠ [] := sortNat_ne_nil' _ (by simp)
+        obtain ⟨gs, ops1, hg, hgo, hsem⟩ := exp_pauliword_z k L (f :: fs) c (d.nonneg c) var none _ rfl hz hne hnd (by simp)
+        have ha' : gatesToOps (acc.gates ++ gs) = some (aops ++ ops1) := gatesToOps_append' _ _ _ _ ha hgo
+        obtain ⟨out, ops, h1, h2, h3, h4⟩ := emit_diag_from k L d var rest { acc with gates := acc.gates ++ gs } (aops ++ ops1) hrest ha'
+        refine ⟨out, ops1 ++ ops, ?_, ?_, ?_, ?_⟩
+        · rw [List.foldlM_cons]
+          have : emitStep d var none acc (f :: fs, c) = some { acc with gates := acc.gates ++ gs } := by
+            simp only [emitStep, hk, if_true, hg, Option.map_some]
+          rw [this]; exact h1
+        · rw [h2, List.append_assoc]
+        · rw [h3]; simp [identityAngle]
+        · intro ψ x
+          rw [semOps_append, h4, hsem]
+          simp only [Option.getD_none, List.all_nil, if_true, phaseProd, List.foldr_cons, termPhase]
+          ring
+
+/-- **One step is exact.**  For an operator made of identity words and Z-type words (all of which commute), the
+    emitted circuit denotes the diagonal operator `x ↦ Π_j exp(∓ i c_j)` - which is `exp(−i Σ_j c_j P_j)` without its
+    identity part - and the returned phase angle is the sum of the identity coefficients. -/
+theorem emit_diagonal_exact (k : Consts R) (L : k.Laws) (d : CoefDecide) (var : Bool) (timed : Terms)
+    (hall : ∀ wc ∈ timed, DiagTerm d wc) :
+    ∃ out ops, emit d timed var none = some out ∧ gatesToOps out.gates = some ops ∧
+      out.phaseAngle = identityAngle timed 0 ∧
+      ∀ (ψ : State R) (x : Bits), semOps k ops ψ x = phaseProd k timed x * ψ x := by
+  obtain ⟨out, ops, h1, h2, h3, h4⟩ := emit_diag_from k L d var timed { gates := [], phaseAngle := 0 } [] hall rfl
+  exact ⟨out, ops, by rw [emit_eq_foldlM]; exact h1, by simpa using h2, h3, h4⟩
+
+theorem gatesToOps_replicate (gs : List Gate) (ops : List Op) (h : gatesToOps gs = some ops) :
+    ∀ n : Nat, gatesToOps (List.flatten (List.replicate n gs)) = some (List.flatten (List.replicate n ops))
+  | 0 => rfl
+  | n + 1 => by
+    rw [List.replicate_succ, List.flatten_cons, List.replicate_succ, List.flatten_cons]
+    exact gatesToOps_append' _ _ _ _ h (gatesToOps_replicate gs ops h n)
+
+/-- **Any number of steps is exact.**  `trotterize` repeats the one-step circuit `n` times; for a diagonal operator
+    the result is the `n`-th power of the one-step diagonal: nothing is lost or gained by cutting the time into steps. -/
+theorem trotter_diagonal_exact (k : Consts R) (L : k.Laws) (d : CoefDecide) (var : Bool) (timed : Terms)
+    (hall : ∀ wc ∈ timed, DiagTerm d wc) (n : Nat) :
+    ∃ out ops, emit d timed var none = some out ∧
+      gatesToOps (List.flatten (List.replicate n out.gates)) = some ops ∧
+      ∀ (ψ : State R) (x : Bits), semOps k ops ψ x = (phaseProd k timed x) ^ n * ψ x := by
+  obtain ⟨out, ops, h1, h2, _, h4⟩ := emit_diagonal_exact k L d var timed hall
+  refine ⟨out, _, h1, gatesToOps_replicate _ _ h2 n, ?_⟩
+  intro ψ x
+  rw [steps_power]
+  induction n generalizing ψ with
+  | zero => simp
+  | succ n ih =>
+    rw [Function.iterate_succ_apply, ih, h4]; ring
+
+/-- a term the float decision rejects leaves no trace in the circuit: this is the place where exactness would be lost -/
+theorem emitStep_dropped (d : CoefDecide) (var : Bool) (ctl : Option (List Nat)) (acc : ExpOut) (f : Nat × Pauli) (fs : PWord) (c : Ang)
+    (h : d.keep c = false) : emitStep d var ctl acc (f :: fs, c) = some acc := by
+  simp [emitStep, h]
+
+example : DiagTerm ⟨fun _ => true, fun _ => true⟩ ([(0, .Z), (2, .Z)], Ang.piQuarter 1) := Or.inr ⟨by decide, by decide, rfl⟩
+example : DiagTerm ⟨fun _ => true, fun _ => true⟩ ([], Ang.piQuarter 1) := Or.inl rfl
+
+end diagonal
+
 /-! ## executable instance -/
 
 /-- the extra law e(π/2) = (1+i)/√2 holds for the amplitudes the driver computes -/
@@ -735,5 +868,13 @@ theorem exp_pauliword_general_exec (w : PWord) (γ : Ang) (nonneg var : Bool)
         (if (ctl.getD []).all (fun c => x c) then cycConsts.cosH (γ + γ) else 1) * ψ x
         + (if (ctl.getD []).all (fun c => x c) then cycConsts.misinH (γ + γ) else 0) * wordOps (pauliMat cycConsts) w ψ x :=
   exp_pauliword_general cycConsts cycConsts_laws halfPi_exec w γ nonneg var ctl hne hnd hcs
+
+/-- diagonal time evolution on the amplitudes the model driver computes, any number of steps -/
+theorem trotter_diagonal_exact_exec (d : CoefDecide) (var : Bool) (timed : Terms)
+    (hall : ∀ wc ∈ timed, DiagTerm d wc) (n : Nat) :
+    ∃ out ops, emit d timed var none = some out ∧
+      gatesToOps (List.flatten (List.replicate n out.gates)) = some ops ∧
+      ∀ (ψ : State Cyc) (x : Bits), semOps cycConsts ops ψ x = (phaseProd cycConsts timed x) ^ n * ψ x :=
+  trotter_diagonal_exact cycConsts cycConsts_laws d var timed hall n
 
 end Tangelo.C06
